@@ -1,3 +1,5 @@
+#[cfg(trusttunnel_verif)]
+use crate::verif::tokio;
 use crate::forwarder::TcpConnector;
 use crate::metrics::OutboundTcpSocketCounter;
 use crate::net_utils::TcpDestination;
